@@ -2,6 +2,7 @@
 import json
 import os
 import re
+import threading
 import vf
 
 HARNESS = "b_codecB_crossvm"
@@ -90,21 +91,134 @@ def deep(ctx, binary, depth, kind, entry, expect):
     return r
 
 
+# ------------------------------------------------------------------------------------------- histories
+HIST_ACTIONS = ("EncodeValue", "EncodeList", "EncodeBigInt", "EncodePar", "Decode", "Compare", "Release")
+
+
+def parallel(ctx, jobs):
+    """thunks in threads (TLC runs and the go build are subprocesses); ctx.tlc numbers its staging directories
+    with a counter, so that part is serialized"""
+    if not getattr(ctx, "_c25_locked", False):
+        lock, orig = threading.Lock(), ctx.stage_specs
+
+        def staged(extra_files=None):
+            with lock:
+                return orig(extra_files)
+        ctx.stage_specs = staged
+        ctx._c25_locked = True
+    res, errs = [None] * len(jobs), []
+
+    def w(i, f):
+        try:
+            res[i] = f()
+        except Exception as e:  # noqa
+            errs.append(e)
+    ts = [threading.Thread(target=w, args=(i, f)) for i, f in enumerate(jobs)]
+    for t in ts:
+        t.start()
+    for t in ts:
+        t.join()
+    if errs:
+        raise errs[0]
+    return res
+
+
+def hist_paths(ctx, r, cfg):
+    """behaviours of HistSpec (calls with retained results) covering every transition TLC generated"""
+    if r.status != "ok":
+        ctx.infra("TLC did not verify %s: status=%s violated=%s %s" % (cfg, r.status, r.violated, r.errors[:2]))
+        return [], 0
+    edges, inits = r.prints.get("EDGE", []), r.prints.get("INIT", [])
+    names = {e["act"]["name"] for e in edges}
+    missing = [a for a in HIST_ACTIONS if a not in names]
+    if missing:
+        ctx.infra("vacuous model run %s: actions never taken: %s" % (cfg, missing))
+    paths, ncov = ctx.cover(edges, inits, max_len=40)
+    ctx.log("TLC %s: %d states, %d transitions, covered %d by %d behaviours, %.1fs" % (cfg, r.distinct, len(edges), ncov, len(paths), r.wall))
+    if ncov < len(edges):
+        ctx.infra("history cover incomplete: %d of %d transitions" % (ncov, len(edges)))
+    return paths, len(edges)
+
+
+def run_hist(ctx, binary, paths, tag):
+    fin = os.path.join(ctx.scratch, "hist-%s.in.json" % tag)
+    fout = os.path.join(ctx.scratch, "hist-%s.out.ndjson" % tag)
+    vf.write_json(fin, {"paths": paths})
+    rc, out = ctx.run_bin(binary, "TestVerifCrossVMHist", env={"VERIF_IN": fin, "VERIF_OUT": fout}, timeout=900)
+    if rc != 0:
+        ctx.infra("crossvm history harness failed rc=%s %s" % (rc, out[-300:]))
+        return None
+    obs = vf.read_ndjson(fout)
+    if len(obs) != len(paths):
+        ctx.infra("history harness reported %d of %d behaviours" % (len(obs), len(paths)))
+        return None
+    return obs
+
+
+def judge_hist(ctx, paths, obs):
+    """every deviation was observed on the real codec while it was driven along a behaviour of the specification"""
+    steps = 0
+    for p, o in zip(paths, obs):
+        steps += o.get("steps", 0)
+        cut = {"init": p["init"], "steps": p["steps"][:o.get("steps", 0) + 1]}
+        if o["res"].startswith("panic"):
+            a = p["steps"][min(o.get("steps", 0), len(p["steps"]) - 1)]["act"]
+            ctx.violation("%s:panic:history" % a["name"], {"panic": o["res"], "act": a}, {"hist": cut})
+        elif o["res"] != "ok":
+            ctx.infra("history harness: %s" % o["res"])
+        for b in o.get("bad") or []:
+            cut = {"init": p["init"], "steps": p["steps"][:b["step"] + 1]}
+            calls = [s["act"]["name"] for s in cut["steps"]]
+            key = "%s:%s:after-%s" % (b["api"], b["what"], b["act"])
+            if len(ctx.violations) >= 30 and any(k == key for k, _, _ in ctx.violations):
+                continue    # every violation writes a replay file; a broken tree fails on most behaviours
+            ctx.violation(key,
+                          {"retained_index": b["idx"], "returned_by_step": b["born"], "observed_after_step": b["step"],
+                           "calls": calls, "detail": b["detail"]}, {"hist": cut})
+    return steps
+
+
 def run(ctx):
-    binary = ctx.go_test_bin(PKG, harness=HARNESS)
+    if ctx.replay_in:
+        binary = ctx.go_test_bin(PKG, harness=HARNESS)
     if ctx.replay_in and binary:
         rp = json.load(open(ctx.replay_in))["replay"]
         if "deep" in rp:
             d = rp["deep"]
             deep(ctx, binary, d["depth"], d["kind"], d["entry"], "ok" if d["kind"] == "closed" else "format")
+        elif "hist" in rp:
+            obs = run_hist(ctx, binary, [rp["hist"]], "rp")
+            if obs:
+                judge_hist(ctx, [rp["hist"]], obs)
         else:
             obs = run_cases(ctx, binary, [rp["case"]], "rp")
             if obs:
                 judge(ctx, [rp["case"]], obs)
         ctx.finish("model_checking", {"states": 0, "transitions": 0, "traces_validated_against_impl": 1, "replay_of": ctx.replay_in})
     cfg = "CrossVM_C25t.cfg" if ctx.thorough else "CrossVM_C25.cfg"
-    r = ctx.tlc("CrossVM_MC", cfg=cfg, workers=1, timeout=2400)
+    hcfg = "CrossVM_C25ht.cfg" if ctx.thorough else "CrossVM_C25h.cfg"
+    # the single-call cases, the histories of calls with retained results, the negative control of the histories
+    # (deviation SinkReuse: a recycled scratch sink must violate Stable) and the build of the harness, side by side
+    binary, r, rh, rneg = parallel(ctx, [
+        lambda: ctx.go_test_bin(PKG, harness=HARNESS),
+        lambda: ctx.tlc("CrossVM_MC", cfg=cfg, workers=1, timeout=2400),
+        lambda: ctx.tlc("CrossVM_MC", cfg=hcfg, workers=1, timeout=2400),
+        lambda: ctx.tlc("CrossVM_MC", cfg="CrossVM_C25hneg.cfg", workers=2, timeout=1200)])
     cases, stats, deeps = [], {}, []
+    neg_ok = rneg.status == "violation" and rneg.violated == "Stable"
+    if not neg_ok:
+        ctx.infra("negative control: the specification with a recycled scratch sink (SinkReuse) does not violate Stable: %s %s %s" %
+                  (rneg.status, rneg.violated, rneg.errors[:2]))
+    hpaths, hedges = hist_paths(ctx, rh, hcfg)
+    hsteps = 0
+    if binary and hpaths:
+        hobs = run_hist(ctx, binary, hpaths, "c25h")
+        if hobs:
+            hsteps = judge_hist(ctx, hpaths, hobs)
+            ctx.log("executed %d behaviours (%d calls with retained results) on the real codec" % (len(hobs), hsteps))
+            if hsteps < hedges and not ctx.violations:
+                ctx.infra("history replay stopped early: %d steps executed for %d transitions" % (hsteps, hedges))
+            ctx.samples.append({"history": [s["act"]["name"] for s in hpaths[0]["steps"][:12]], "real": hobs[0]["res"]})
     if r.status != "ok":
         ctx.infra("TLC did not verify %s: status=%s violated=%s %s" % (cfg, r.status, r.violated, r.errors[:2]))
     else:
@@ -140,11 +254,14 @@ def run(ctx):
             ctx.log("nesting depth %d (%s, %s): %s" % (depth, kind, entry, d.get("outcome")))
     ctx.finish("model_checking", {
         "states": ctx.stats["states"], "transitions": ctx.stats["transitions"],
-        "traces_validated_against_impl": len(cases) + len(deeps),
+        "traces_validated_against_impl": len(cases) + len(deeps) + len(hpaths),
+        "history_behaviours": len(hpaths), "history_transitions": hedges, "history_steps_executed": hsteps,
+        "negative_control_violated": {"SinkReuse": neg_ok},
         "cases_by_kind": {"%s/%s/%s" % k: v for k, v in sorted(stats.items())},
-        "deep_nesting_runs": deeps, "constants": {"cfg": cfg}, "exhaustive": True,
+        "deep_nesting_runs": deeps, "constants": {"cfg": cfg, "history_cfg": hcfg}, "exhaustive": True,
     }, ["bytes are modelled exactly (sequences of 0..255); u32 counts >= 2^30 are one abstract value HUGE (no enumerated input is that long)",
         "128-bit integers are compared as 16-byte two's-complement strings; the harness converts to/from big.Int with math/big only",
         "which of the two error values is returned is compared but is not part of the property (a difference is reported as model drift, exit 2)",
         "nesting beyond MaxNest is checked on the real code only (child process); the specification's answer for chains of singleton lists is extrapolated from the enumerated depths",
+        "histories: at most MaxKept (3) encodings are held at a time, over 6 (thorough 9) values of different encoded lengths; the two goroutines of EncodePar are compared only after both have returned (race-free oracle); which goroutine runs first is not controlled",
         "callers bound the input: WASM memory is capped at 10 MiB (WASM_MEM_LIMITATION), notify payloads by MAX_NOTIFY_LENGTH"])
